@@ -1,10 +1,10 @@
 SPECIFICATION Spec
 CONSTANTS
   Names = {"a", "b"}
-  BaseLens = {0, 3, 30}
+  BaseLens = {3, 30}
   Align = {20}
   EndAlign = {}
-  MaxOps = 7
+  MaxOps = 6
   MaxFiles = 2
   Srcs = {"exact"}
   Calls = {"start", "append", "end", "finalize"}
